@@ -18,6 +18,19 @@ PROPS = {
         'trusted': ['hand-written Lean semantics of match/if-chains/slicing in Model/Card.lean (validated by the exhaustive correspondence)'],
         'assumptions': ['reversed range endpoints are outside C13 (see DESIGN §5)'],
     },
+    'C07': {
+        'gen_items': ['Rank', 'Suit', 'DpRef', 'Tables', 'MadeHand'],
+        'lean_modules': ['EspadaVerif.Props.C07'],
+        'namespaces': ['EspadaVerif.C07'],
+        'theorems': ['EspadaVerif.C07.C07_intervals', 'EspadaVerif.C07.category_names'],
+        'profiles': ['debug'],
+        'gen_release': True,
+        'rule': 'one hand per reachable table slot (49,205 rank-count vectors + 4,719 flush masks), hands stratified over the nine '
+                'categories, flush completing at card 5/6/7, all 5040 orders of selected hands, uniform random hands; the oracle column '
+                'is the category of Spec.best (best of the 21 five-card hands under the rule book numbering). distinct = distinct request lines.',
+        'trusted': ['Spec/Poker.lean closed-form numbering (proved to be the order rank of the rule-book strength in Props/C01)'],
+        'assumptions': [],
+    },
     'C14': {
         'gen_items': ['Rank', 'Suit', 'CardBits', 'Pair'],
         'lean_modules': ['EspadaVerif.Props.C14'],
